@@ -259,11 +259,14 @@ func solveOne(o *Obligation, timeoutS, seed int, prelude string, mu *sync.Mutex,
 		mu.Unlock()
 		if ok {
 			tag := fmt.Sprintf(" (quantifier-free: %d instances)", ninst)
-			qt := min(timeoutS, 15)
+			qt := min(timeoutS, 12)
 			if o.Name == "combined" {
 				qt = min(timeoutS, 5)
 			}
-			st, out, secs := runSolver(context.Background(), solvers[0], gs, qt)
+			st, out, secs, who := raceQF(gs, qt)
+			if who != "" && who != solvers[0].name {
+				tag = " [" + who + "]" + tag
+			}
 			if o.Name == "combined" && st != "unsat" {
 				return &Result{Obl: o, Status: "unknown", Solver: "combined attempt abandoned", Seconds: secs}
 			}
@@ -365,6 +368,39 @@ func race(script string, timeoutS int) *Result {
 	}
 	_ = last
 	return &Result{Status: worst, Solver: "none", Seconds: time.Since(t0).Seconds(), Output: strings.Join(outs, "\n")}
+}
+
+// raceQF runs z3 5.1.0 and cvc5 concurrently on a quantifier-free query; the first definitive
+// answer wins.
+func raceQF(script string, timeoutS int) (status, out string, secs float64, who string) {
+	t0 := time.Now()
+	// most queries are decided by z3 within a second: try it alone first
+	if s, o, _ := runSolver(context.Background(), solvers[0], script, min(timeoutS, 3)); s == "sat" || s == "unsat" {
+		return s, o, time.Since(t0).Seconds(), solvers[0].name
+	}
+	ctx, cancel := context.WithCancel(context.Background())
+	defer cancel()
+	type ans struct{ st, out, name string }
+	ch := make(chan ans, 2)
+	for _, sp := range solvers[:2] {
+		sp := sp
+		go func() {
+			s, o, _ := runSolver(ctx, sp, script, timeoutS)
+			ch <- ans{s, o, sp.name}
+		}()
+	}
+	status = "unknown"
+	for i := 0; i < 2; i++ {
+		a := <-ch
+		if a.st == "sat" || a.st == "unsat" {
+			return a.st, a.out, time.Since(t0).Seconds(), a.name
+		}
+		if a.st == "timeout" {
+			status = "timeout"
+		}
+		out = a.out
+	}
+	return status, out, time.Since(t0).Seconds(), ""
 }
 
 func firstLines(s string, n int) string {
